@@ -115,6 +115,53 @@ def run(repo, seed, which=("SolveUnc", "SolveExp2")):
                 if e_ > 1e-8 and res["failure"] is None:
                     res["failure"] = dict(system="4-DOF coupled, pre_eig=True, rf=%s" % rfm, solver=cls, order=order, rel_err=float(e_),
                                           what="with pre_eig=True and residual-flexibility modes the displacement differs from the explicitly reduced modal system (d = phi q)")
+    # options that do not change the mathematical problem: mass given as a vector / as the diagonal matrix / (uniform) as None, with and without pre_eig (zero initial
+    # conditions: the pre_eig initial-condition defect D6 is a recorded finding of its own); element type of the arrays (integer-typed m, b, k == their float copies)
+    Kc = np.array([[70.0, -30.0, 0.0, 0.0], [-30.0, 65.0, -25.0, 0.0], [0.0, -25.0, 55.0, -20.0], [0.0, 0.0, -20.0, 20.0]])
+    hc, ntc = 0.004, 250
+    tc = np.arange(ntc) * hc
+    Fc = np.vstack([np.interp(tc, np.linspace(0, tc[-1], 30), rng.randn(30)) for _ in range(4)])
+    for mvec in (np.array([1.0, 2.5, 0.6, 4.0]), np.ones(4)):
+        Mc = np.diag(mvec)
+        Bc = 0.3 * Mc + 0.002 * Kc
+        for order in (1, 0):
+            dr, vr = reference(Mc, Bc, Kc, hc, Fc, np.zeros(4), np.zeros(4), order)
+            forms = [("vector", mvec), ("matrix", Mc)] + ([("None", None)] if np.all(mvec == 1.0) else [])
+            for cls in which:
+                for mname, marg in forms:
+                    for pe in (True, False):
+                        try:
+                            sol = getattr(ode, cls)(marg, Bc, Kc, hc, order=order, pre_eig=pe).tsolve(Fc)
+                        except (ValueError, TypeError, NotImplementedError):
+                            continue
+                        res["evaluations"] += 1
+                        e_ = abs(sol.d - dr).max() / abs(dr).max()
+                        ev_ = abs(sol.v - vr).max() / abs(vr).max()
+                        r_ = abs(Mc @ sol.a + Bc @ sol.v + Kc @ sol.d - Fc).max() / abs(Fc).max()
+                        res["cases"].append(dict(system="4-DOF chain, mass as %s, pre_eig=%s" % (mname, pe), solver=cls, order=order, max_rel_err=float(max(e_, ev_)), eom_residual=float(r_)))
+                        if (e_ > 1e-7 or ev_ > 1e-7 or r_ > 1e-7) and res["failure"] is None:
+                            res["failure"] = dict(system="4-DOF chain K, diagonal mass %s given as %s, Rayleigh damping, pre_eig=%s, zero initial conditions" % (mvec.tolist(), mname, pe), solver=cls,
+                                                  order=order, h=hc, rel_err_d=float(e_), rel_err_v=float(ev_), eom_residual=float(r_), m=mvec.tolist(), k=Kc.tolist(),
+                                                  what="solution differs from the exact first-order-hold solution (expm reference) / violates the equation of motion")
+    mi, bi_, ki = np.array([2, 3, 1, 4]), np.array([0, 1, 30, 2]), np.array([0, 18, 48, 4000])
+    Fi = Fc.copy()
+    for cls in which:
+        for order in (1, 0):
+            for rfm in (None, [3]):
+                for what_, (ma, ba, ka) in (("m, b, k", (mi, bi_, ki)), ("m", (mi, bi_.astype(float), ki.astype(float))), ("k", (mi.astype(float), bi_.astype(float), ki)),
+                                             ("2-D diagonal m", (np.diag(mi), bi_.astype(float), ki.astype(float)))):
+                    try:
+                        si = getattr(ode, cls)(ma, ba, ka, hc, order=order, rf=rfm).tsolve(Fi)
+                        sf = getattr(ode, cls)(np.asarray(ma, float), np.asarray(ba, float), np.asarray(ka, float), hc, order=order, rf=rfm).tsolve(Fi)
+                    except (ValueError, TypeError, NotImplementedError):
+                        continue
+                    res["evaluations"] += 1
+                    e_ = max(abs(getattr(si, q_) - getattr(sf, q_)).max() / max(abs(getattr(sf, q_)).max(), 1e-12) for q_ in "dva")
+                    res["cases"].append(dict(system="diagonal system, integer-typed %s, rf=%s" % (what_, rfm), solver=cls, order=order, max_rel_err=float(e_)))
+                    if e_ > 1e-9 and res["failure"] is None:
+                        res["failure"] = dict(system="diagonal 4-mode system (rigid-body, under-, overdamped, stiff), rf=%s" % rfm, solver=cls, order=order, h=hc, rel_err=float(e_),
+                                              m=np.asarray(ma).tolist(), b=np.asarray(ba).tolist(), k=np.asarray(ka).tolist(),
+                                              what="integer-typed %s gives a different answer than the same numbers as floats" % what_)
     return res
 
 
